@@ -1091,7 +1091,7 @@ def check_C19(ctx):
             res_stats["finished"] += 1
     ctx.add_stage("resource-specimens", res_stats)
     # real rustc, stable toolchain
-    m = 160 if ctx.tier == "quick" else 1000
+    m = 220 if ctx.tier == "quick" else 1000
     rdir = os.path.join(WORK, "rsample")
     shutil.rmtree(rdir, ignore_errors=True)
     vtool(["rsample-gen", "--seed", str(ctx.seed), "--count", str(m), "--dir", rdir])
